@@ -38,7 +38,7 @@ theorem win_trueJif {lo : Nat} (hw : windowOk I I' c.length (.trueJif lo) = true
     (hst : StEq false st st') :
     ∃ k k' e stack1 st1 st1', 0 < k ∧
       Steps M obj c k (lo, stack, st) (e, stack1, st1) ∧ Steps M' obj c' k' (lo, stack, st') (e, stack1, st1') ∧
-      e = lo + 4 ∧ StEq false st1 st1' := by
+      e = lo + 4 ∧ StEq false st1 st1' ∧ 0 < k' := by
   simp only [windowOk, Bool.and_eq_true, List.any_eq_true, beq_iff_eq] at hw
   obtain ⟨⟨h1, ⟨p, hp, hp1, hp2⟩⟩, h3⟩ := hw
   have f1 := fetch_of_decode hd (mem_of_contains h1)
@@ -49,7 +49,7 @@ theorem win_trueJif {lo : Nat} (hw : windowOk I I' c.length (.trueJif lo) = true
   simp only at hp2
   subst hp2
   have f2 := fetch_of_decode hd hp
-  refine ⟨2, 4, lo + 4, stack, { st with polls := st.polls + 1 + 1 }, { st' with polls := st'.polls + 4 }, by omega, ?_, ?_, rfl, ?_⟩
+  refine ⟨2, 4, lo + 4, stack, { st with polls := st.polls + 1 + 1 }, { st' with polls := st'.polls + 4 }, by omega, ?_, ?_, rfl, ?_, by omega⟩
   · refine .succ (y := (lo + 1, .bool true :: stack, { st with polls := st.polls + 1 })) (fun f => turn_true hnd f1 stack st f) ?_
     refine steps_one (y := (lo + 4, stack, { st with polls := st.polls + 1 + 1 })) (fun f => ?_)
     have := turn_jif (obj := obj) hnd f2 (.bool true) (Or.inl rfl) stack { st with polls := st.polls + 1 } f
@@ -63,12 +63,12 @@ theorem win_falseJif {lo x : Nat} (hw : windowOk I I' c.length (.falseJif lo x) 
     (hst : StEq false st st') :
     ∃ k k' e stack1 st1 st1', 0 < k ∧
       Steps M obj c k (lo, stack, st) (e, stack1, st1) ∧ Steps M' obj c' k' (lo, stack, st') (e, stack1, st1') ∧
-      e = x ∧ StEq false st1 st1' := by
+      e = x ∧ StEq false st1 st1' ∧ 0 < k' := by
   simp only [windowOk, Bool.and_eq_true, decide_eq_true_eq] at hw
   obtain ⟨⟨⟨⟨h1, h2⟩, h3⟩, h4⟩, h5⟩ := hw
   have f1 := fetch_of_decode hd (mem_of_contains h1)
   have f2 := fetch_of_decode hd (mem_of_contains h2)
-  refine ⟨2, x - lo, x, stack, { st with polls := st.polls + 1 + 1 }, { st' with polls := st'.polls + (x - lo) }, by omega, ?_, ?_, rfl, ?_⟩
+  refine ⟨2, x - lo, x, stack, { st with polls := st.polls + 1 + 1 }, { st' with polls := st'.polls + (x - lo) }, by omega, ?_, ?_, rfl, ?_, by omega⟩
   · refine .succ (y := (lo + 1, .bool false :: stack, { st with polls := st.polls + 1 })) (fun f => turn_false hnd f1 stack st f) ?_
     refine steps_one (y := (x, stack, { st with polls := st.polls + 1 + 1 })) (fun f => ?_)
     have := turn_jif (obj := obj) hnd f2 (.bool false) (Or.inr h4) stack { st with polls := st.polls + 1 } f
@@ -105,15 +105,15 @@ theorem Reach.nops {M : Machine} {obj : HostVal} {c : Bytes} {I : IL} (hnd : Nev
   exact ⟨_, _, Nat.zero_le _, this, rfl, rfl, rfl⟩
 
 theorem window_of_reach {M M' : Machine} {obj : HostVal} {c c' : Bytes} {lo e : Nat} {stack stack1 : List Value}
-    (h : Reach M obj c 1 lo stack e stack1) (h' : Reach M' obj c' 0 lo stack e stack1) (st st' : RunSt)
+    (h : Reach M obj c 1 lo stack e stack1) (h' : Reach M' obj c' 1 lo stack e stack1) (st st' : RunSt)
     (hst : StEq false st st') :
     ∃ k k' e' stack1' st1 st1', 0 < k ∧
       Steps M obj c k (lo, stack, st) (e', stack1', st1) ∧ Steps M' obj c' k' (lo, stack, st') (e', stack1', st1') ∧
-      e' = e ∧ StEq false st1 st1' := by
+      e' = e ∧ StEq false st1 st1' ∧ 0 < k' := by
   obtain ⟨k, st1, hk, hs, a1, a2, a3⟩ := h st
-  obtain ⟨k', st1', _, hs', b1, b2, b3⟩ := h' st'
+  obtain ⟨k', st1', hk', hs', b1, b2, b3⟩ := h' st'
   exact ⟨k, k', e, stack1, st1, st1', by omega, hs, hs', rfl,
-    ⟨by rw [a1, b1, hst.1], by rw [a2, b2, hst.2.1], by rw [a3, b3, hst.2.2.1], fun e => by cases e⟩⟩
+    ⟨by rw [a1, b1, hst.1], by rw [a2, b2, hst.2.1], by rw [a3, b3, hst.2.2.1], fun e => by cases e⟩, by omega⟩
 
 section windows2
 variable {M M' : Machine} {obj : HostVal} {c c' : Bytes} {I I' : IL}
@@ -125,7 +125,7 @@ theorem win_arith {boff aoff ip b a r : Nat} {o : Op} (hw : windowOk I I' c.leng
     (stack : List Value) (st st' : RunSt) (hst : StEq false st st') :
     ∃ k k' e stack1 st1 st1', 0 < k ∧
       Steps M obj c k (boff, stack, st) (e, stack1, st1) ∧ Steps M' obj c' k' (boff, stack, st') (e, stack1, st1') ∧
-      e = ip + 1 ∧ StEq false st1 st1' := by
+      e = ip + 1 ∧ StEq false st1 st1' ∧ 0 < k' := by
   simp only [windowOk, Bool.and_eq_true, decide_eq_true_eq, beq_iff_eq] at hw
   obtain ⟨⟨⟨⟨⟨⟨⟨⟨⟨⟨⟨⟨⟨h1, h2⟩, h3⟩, h4⟩, h5⟩, h6⟩, h7⟩, h8⟩, h9⟩, h10⟩, h11⟩, h12⟩, h13⟩, h14⟩ := hw
   have f1 := fetch_of_decode hd (mem_of_contains h1)
@@ -155,14 +155,14 @@ theorem win_arith {boff aoff ip b a r : Nat} {o : Op} (hw : windowOk I I' c.leng
     have := (t1.trans t2).trans t3
     exact fun st => by
       obtain ⟨k, st1, hk, rest⟩ := this st
-      exact ⟨k, st1, Nat.zero_le _, rest⟩
+      exact ⟨k, st1, by omega, rest⟩
   · exact hst
 
 theorem win_cmp {boff aoff ip b a : Nat} {t : Bool} (hw : windowOk I I' c.length (.cmp boff aoff ip b a t) = true)
     (stack : List Value) (st st' : RunSt) (hst : StEq false st st') :
     ∃ k k' e stack1 st1 st1', 0 < k ∧
       Steps M obj c k (boff, stack, st) (e, stack1, st1) ∧ Steps M' obj c' k' (boff, stack, st') (e, stack1, st1') ∧
-      e = ip + 1 ∧ StEq false st1 st1' := by
+      e = ip + 1 ∧ StEq false st1 st1' ∧ 0 < k' := by
   simp only [windowOk, Bool.and_eq_true, Bool.or_eq_true, decide_eq_true_eq, beq_iff_eq] at hw
   obtain ⟨⟨⟨⟨⟨⟨⟨⟨⟨⟨h1, h2⟩, h3⟩, h4⟩, h5⟩, h6⟩, h7⟩, h8⟩, h9⟩, h10⟩, h11⟩ := hw
   have f1 := fetch_of_decode hd (mem_of_contains h1)
@@ -196,7 +196,7 @@ theorem win_cmp {boff aoff ip b a : Nat} {t : Bool} (hw : windowOk I I' c.length
     have := t1.trans t2
     exact fun st => by
       obtain ⟨k, st1, hk, rest⟩ := this st
-      exact ⟨k, st1, Nat.zero_le _, rest⟩
+      exact ⟨k, st1, by omega, rest⟩
   · exact hst
 
 end windows2
@@ -227,21 +227,21 @@ theorem validStep_sound {M M' : Machine} {obj : HostVal} {c c' : Bytes} (hnd : N
         intro i hi _ stack st st' hst
         cases w with
         | trueJif lo =>
-          obtain ⟨k, k', e, s1, st1, st1', hk, a, b, he, hq⟩ := win_trueJif (obj := obj) hnd hnd' hd hd' hwok stack st st' hst
+          obtain ⟨k, k', e, s1, st1, st1', hk, a, b, he, hq, hk'⟩ := win_trueJif (obj := obj) hnd hnd' hd hd' hwok stack st st' hst
           subst he
-          exact ⟨k, k', _, s1, st1, st1', hk, a, b, hhi, hq⟩
+          exact ⟨k, k', _, s1, st1, st1', hk, a, b, hhi, hq, hk'⟩
         | falseJif lo x =>
-          obtain ⟨k, k', e, s1, st1, st1', hk, a, b, he, hq⟩ := win_falseJif (obj := obj) hnd hnd' hd hd' hwok stack st st' hst
+          obtain ⟨k, k', e, s1, st1, st1', hk, a, b, he, hq, hk'⟩ := win_falseJif (obj := obj) hnd hnd' hd hd' hwok stack st st' hst
           subst he
-          exact ⟨k, k', _, s1, st1, st1', hk, a, b, hhi, hq⟩
+          exact ⟨k, k', _, s1, st1, st1', hk, a, b, hhi, hq, hk'⟩
         | arith boff aoff ip b a r o =>
-          obtain ⟨k, k', e, s1, st1, st1', hk, a, b, he, hq⟩ := win_arith (obj := obj) hnd hnd' hd hd' hwok stack st st' hst
+          obtain ⟨k, k', e, s1, st1, st1', hk, a, b, he, hq, hk'⟩ := win_arith (obj := obj) hnd hnd' hd hd' hwok stack st st' hst
           subst he
-          exact ⟨k, k', _, s1, st1, st1', hk, a, b, hhi, hq⟩
+          exact ⟨k, k', _, s1, st1, st1', hk, a, b, hhi, hq, hk'⟩
         | cmp boff aoff ip b a t =>
-          obtain ⟨k, k', e, s1, st1, st1', hk, a, b, he, hq⟩ := win_cmp (obj := obj) hnd hnd' hd hd' hwok stack st st' hst
+          obtain ⟨k, k', e, s1, st1, st1', hk, a, b, he, hq, hk'⟩ := win_cmp (obj := obj) hnd hnd' hd hd' hwok stack st st' hst
           subst he
-          exact ⟨k, k', _, s1, st1, st1', hk, a, b, hhi, hq⟩
+          exact ⟨k, k', _, s1, st1, st1', hk, a, b, hhi, hq, hk'⟩
         | sqrt lo => simp [windowOk] at hwok
 
 end EvalFilter.OptSim
